@@ -21,6 +21,7 @@ import YadismModel.Model.TMC
 import YadismModel.Generated.TMC
 import YadismModel.Model.Threshold
 import YadismModel.Generated.Threshold
+import YadismModel.Model.Interp
 
 open Yadism Yadism.Proto
 
@@ -390,6 +391,41 @@ def rdConvm : RdM String := do
   let p : RslParts Rat := ⟨if hr then some 1 else none, if hs then some 1 else none, if hl then some loc else none⟩
   pure (showRat (operatorEntry Yadism.Gen.convEps point bs (decorate dec p) quad pdf w))
 
+/-- `interp n d grid… m t…` : for every `t`, `basis_0(t) … basis_{n-1}(t)`;
+`interpinfo n d` : `kmin` per interval and the areas of every basis function;
+`below n d grid… t` : `is_below_x` of every basis function -/
+def rdGrid : RdM (Nat × Nat × Array Rat) := do
+  let n ← nat
+  let d ← nat
+  let mut g : Array Rat := #[]
+  for _ in [0:n] do
+    let v ← rat
+    g := g.push v
+  pure (n, d, g)
+
+def rdInterp : RdM String := do
+  let (n, d, g) ← rdGrid
+  let xs : Nat → Rat := fun i => g.getD i 0
+  let m ← nat
+  let mut out : List String := []
+  for _ in [0:m] do
+    let t ← rat
+    out := out ++ [" ".intercalate ((List.range n).map fun j => showRat (Yadism.Interp.basis xs n d j t))]
+  pure (" | ".intercalate out)
+
+def rdInterpInfo : RdM String := do
+  let n ← nat
+  let d ← nat
+  let ks := (List.range (n - 1)).map fun i => toString (Yadism.Interp.kminOf n d i)
+  let ar := (List.range n).map fun j => ",".intercalate ((Yadism.Interp.areas n d j).map toString)
+  pure (" ".intercalate ks ++ " | " ++ " ".intercalate ar)
+
+def rdBelow : RdM String := do
+  let (n, d, g) ← rdGrid
+  let xs : Nat → Rat := fun i => g.getD i 0
+  let t ← rat
+  pure (" ".intercalate ((List.range n).map fun j => showBool (Yadism.Interp.isBelowX xs n d j t)))
+
 /-- `kinfo name` : size, maxArg, usesZ -/
 def rdKinfo : RdM String := do
   let name ← tok
@@ -500,6 +536,9 @@ def handle (op : String) : RdM String := do
   | "kinfo" => rdKinfo
   | "tmcval" => rdTmcval
   | "thr" => rdThr
+  | "interp" => rdInterp
+  | "interpinfo" => rdInterpInfo
+  | "below" => rdBelow
   | "convm" => rdConvm
   | "convfx" => rdConvfx
   | "update" => do   -- compatibility.update: update <theory card> <obs card>
